@@ -92,6 +92,33 @@ type Step struct {
 	Keep     int  `json:"keep,omitempty"`
 	// OpNext: gap in the WAL numbering (next = cur + 1 + Gap).
 	Gap int `json:"gap,omitempty"`
+	// OpWrite: Rep > 1 repeats the write Rep times (bulk of queued records).
+	Rep int `json:"rep,omitempty"`
+}
+
+// expandSteps unrolls OpWrite steps with Rep > 1.
+func expandSteps(steps []Step) []Step {
+	n := 0
+	for _, s := range steps {
+		if s.Op == OpWrite && s.Rep > 1 {
+			n += s.Rep
+		} else {
+			n++
+		}
+	}
+	out := make([]Step, 0, n)
+	for _, s := range steps {
+		if s.Op == OpWrite && s.Rep > 1 {
+			r := s.Rep
+			s.Rep = 0
+			for i := 0; i < r; i++ {
+				out = append(out, s)
+			}
+		} else {
+			out = append(out, s)
+		}
+	}
+	return out
 }
 
 // Keep parametrises the deterministic crash clone: an unsynced directory entry
@@ -216,6 +243,16 @@ func gen(t *rapid.T) Plan {
 
 	syncPct := rapid.SampledFrom([]int{15, 50, 50, 90}).Draw(t, "sync_pct")
 	big := rapid.SampledFrom([]bool{false, false, true}).Draw(t, "big_records")
+	if !p.DB && rapid.IntRange(0, 99).Draw(t, "bulk") < 10 {
+		// A bulk of unsynced records around the sizes at which the failover
+		// writer's record queue fills / grows (powers of two), then synced
+		// records with waits: the queue is drained while (nearly) exactly full.
+		rep := rapid.SampledFrom([]int{63, 64, 511, 512, 4095, 4096, 8190, 8191, 8192, 8193, 16383, 16384}).Draw(t, "bulk_rep")
+		p.Steps = append(p.Steps, Step{Op: OpWrite, Count: 1, Size: rapid.SampledFrom([]int{13, 40, 200}).Draw(t, "bulk_size"), Rep: rep})
+		for i, m := 0, rapid.IntRange(1, 3).Draw(t, "bulk_syncs"); i < m; i++ {
+			p.Steps = append(p.Steps, Step{Op: OpWrite, Count: 1, Size: 20, Sync: true}, Step{Op: OpAwait, Us: 50000})
+		}
+	}
 	n := rapid.IntRange(3, 30).Draw(t, "n_steps")
 	crashes, nexts := 0, 0
 	for i := 0; i < n; i++ {
